@@ -22,6 +22,7 @@ mod probe;
 mod report;
 mod rng;
 mod shard;
+mod watch;
 
 pub struct Cfg {
     pub thorough: bool,
@@ -53,6 +54,9 @@ fn main() {
     }
     // keep panics of the code under test quiet; they are caught and reported per case
     if std::env::var("UEC_LOUD").is_err() { std::panic::set_hook(Box::new(|_| {})); }
+    // a case of the real code that does not return is reported (and the run stopped) instead of waited for
+    let limit = std::env::var("UEC_CASE_TIMEOUT_S").ok().and_then(|v| v.parse().ok()).unwrap_or(if cfg.thorough { 120 } else { 20 });
+    watch::start(&fam, &cfg.out, &cfg.prop, std::time::Duration::from_secs(limit));
     let rep = match fam.as_str() {
         "stack" => fam_stack::run(&cfg),
         "sel" => fam_sel::run(&cfg),
